@@ -649,6 +649,18 @@ func c05(c *Ctx) {
 			add(x86.MOVQ(operand.Mem{Base: b, Index: reg.R9, Scale: sc, Disp: 16}, reg.RCX))
 		}
 	}
+	// constants that are not integers offered where an immediate is expected: whatever a constructor
+	// accepts must still assemble to that constant
+	for _, k := range []operand.Op{operand.F32(1.5), operand.F64(1.5), operand.F32(2), operand.String("A"), operand.String("ab"), operand.String("abcd"), operand.String("8 bytes!")} {
+		add(x86.MOVB(k, reg.AL))
+		add(x86.MOVW(k, reg.BX))
+		add(x86.MOVL(k, reg.EAX))
+		add(x86.MOVQ(k, reg.RAX))
+		add(x86.ADDL(k, reg.ECX))
+		add(x86.CMPL(operand.Mem{Base: reg.RSI}, k))
+		add(x86.PSHUFD(k, reg.X1, reg.X2))
+		add(x86.MOVQ(k, operand.Mem{Base: reg.RBX}))
+	}
 	// displacements at and beyond the int32 range of the encoding
 	for _, disp := range []int{1<<31 - 1, -(1 << 31), 1 << 31, 1<<32 + 8, -(1 << 31) - 16, 1 << 32} {
 		add(x86.MOVQ(operand.Mem{Base: reg.RAX, Index: reg.RCX, Scale: 8, Disp: disp}, reg.RDX))
@@ -815,6 +827,8 @@ func classifyReject(in *inst05) string {
 			if o < 0 {
 				return "negative-imm8:" + in.I.Opcode
 			}
+		case operand.F32, operand.F64, operand.String:
+			return "non-integer-constant-as-immediate:" + in.I.Opcode
 		case operand.Mem:
 			if o.Index != nil && o.Scale != 1 && o.Scale != 2 && o.Scale != 4 && o.Scale != 8 {
 				return "scale-not-1248"
